@@ -4,6 +4,7 @@ CONSTANTS
   MaxEdits = 2
   Limit = 1
   ReadOnly = TRUE
+  InitDisks = {"A"}
   Watch = "none"
 SPECIFICATION Spec
 VIEW View
